@@ -517,3 +517,124 @@ def gen_rules(r: random.Random, profile: str) -> Dict[str, Any]:
             w.scripts[a["name"]] = turns
         return w.scenario()
     raise ValueError(P)
+
+
+# ---------------------------------------------------------------------- C20: built-in agents under probe
+def _jr(r: random.Random, kind: str):
+    """JsonRandom spec of a non-negative weight."""
+    u = r.random()
+    if kind == "weight":
+        if u < 0.25:
+            return {"const": [0.0]}
+        if u < 0.5:
+            return {"const": [r.choice([0.5, 1.0, 3.0])]}
+        if u < 0.75:
+            return {"expon": [r.choice([0.5, 1.0, 2.0])]}
+        return [0.1, 2.0]
+    raise ValueError(kind)
+
+
+def gen_agents(r: random.Random, profile: str = "agents") -> Dict[str, Any]:
+    w = World(r)
+    with_index = r.random() < 0.6
+    if with_index:
+        n = r.randint(2, 3)
+        sh = r.choice([100, 1000])
+        for i in range(n):
+            p0 = float(r.choice([100, 300, 400]))
+            d = {"class": "TapMarket", "tickSize": r.choice([1.0, 0.1, 0.01]), "marketPrice": p0,
+                 "fundamentalPrice": p0 * r.choice([1.0, 1.02, 0.97]), "outstandingShares": sh,
+                 "fundamentalVolatility": r.choice([0.0, 0.002, 0.01]), "fundamentalDrift": r.choice([0.0, 0.001])}
+            w.cfg[f"M{i}"] = d
+            w.cfg["simulation"]["markets"].append(f"M{i}")
+            w.markets.append({"name": f"M{i}", "tick": d["tickSize"], "p0": p0, "index": False})
+        comps = [f"M{i}" for i in range(n)]
+        avg = sum(w.cfg[c]["marketPrice"] for c in comps) / n
+        gap = r.choice([0.0, 0.5, 0.99, 1.0, 1.01, 3.0, -0.99, -1.0, -1.01, -4.0])
+        w.add_index("IDX", r.choice([1.0, 0.01]), avg + gap, comps)
+    else:
+        for i in range(r.randint(1, 3)):
+            p0 = float(r.choice([100, 300, 1000]))
+            d = {"class": "TapMarket", "tickSize": r.choice([1.0, 0.5, 0.01, 0.00001]), "marketPrice": p0,
+                 "fundamentalPrice": p0 * r.choice([1.0, 1.05, 0.9]),
+                 "fundamentalVolatility": r.choice([0.0, 0.002, 0.02]), "fundamentalDrift": r.choice([0.0, 0.002, -0.002])}
+            w.cfg[f"M{i}"] = d
+            w.cfg["simulation"]["markets"].append(f"M{i}")
+            w.markets.append({"name": f"M{i}", "tick": d["tickSize"], "p0": p0, "index": False})
+    plain = [m["name"] for m in w.markets if not m["index"]]
+    allm = [m["name"] for m in w.markets]
+    w.add_scripted("SA", r.randint(1, 4), False)
+    if r.random() < 0.3:
+        w.add_scripted("SH", 1, True)
+
+    def fcn_settings(cls):
+        wts = [_jr(r, "weight") for _ in range(3)]
+        if all(isinstance(x, dict) and x.get("const") == [0.0] for x in wts):
+            wts[r.randrange(3)] = {"const": [1.0]}
+        mt = r.choice([None, "fixed", "fixed", "normal"])
+        d = {"class": cls, "numAgents": r.randint(1, 4), "markets": r.sample(allm, r.randint(1, len(allm))) if cls == "ProbeFCN" else (allm if len(allm) > 1 else allm),
+             "cashAmount": 10000, "assetVolume": [10, 60],
+             "fundamentalWeight": wts[0], "chartWeight": wts[1], "noiseWeight": wts[2],
+             "noiseScale": r.choice([0.0, 0.001, 0.02]), "timeWindowSize": r.choice([1, 2, 5, [3, 12], {"const": [7]}]),
+             # margin exactly 1 makes a fixed-margin FCN agent bid at price 0 (documented range is 0 <= k <= 1, but a
+             # trade at price 0 is outside every market state the statement quantifies over): stay below 1
+             "orderMargin": (r.choice([0.0, 0.9, 0.05, [0.0, 0.1]]) if mt != "normal" else r.choice([0.1, 1.0, [0.0, 2.0]]))}
+        if mt:
+            d["marginType"] = mt
+        if r.random() < 0.4:
+            d["meanReversionTime"] = r.choice([1, 10, [5, 50]])
+        return d
+
+    groups = []
+    if r.random() < 0.8:
+        w.add_group("FCN", fcn_settings("ProbeFCN"))
+        groups.append("FCN")
+    if r.random() < 0.5:
+        w.add_group("MSF", fcn_settings("ProbeMSFCN"))
+    if r.random() < 0.6:
+        tgt = r.choice(plain)
+        w.add_group("MM", {"class": "ProbeMM", "numAgents": r.randint(1, 2), # a market maker takes max bid / min ask over *all* its accessible markets (documented), so the
+                           # other accessible markets must trade at the price level of its target
+                           "markets": r.choice([[tgt], [tgt] + [m["name"] for m in w.markets if m["name"] != tgt and not m["index"]
+                                                                and m["p0"] == w.cfg[tgt]["marketPrice"]]]),
+                           "cashAmount": 100000, "assetVolume": 100, "targetMarket": tgt,
+                           "netInterestSpread": r.choice([0.0, 0.01, 0.05, [0.001, 0.03]]),
+                           **({"orderTimeLength": r.choice([1, 3, [2, 6]])} if r.random() < 0.6 else {})})
+    if with_index and r.random() < 0.85:
+        w.add_group("ARB", {"class": "ProbeArb", "numAgents": r.randint(1, 2), "markets": allm, "cashAmount": 100000,
+                            "assetVolume": 100, "orderVolume": r.randint(1, 3),
+                            "orderThresholdPrice": r.choice([1.0, 0.5, 2.0, 0.0]),
+                            **({"orderTimeLength": r.randint(1, 4)} if r.random() < 0.6 else {})})
+    if r.random() < 0.3:
+        w.add_group("TST", {"class": "ProbeTest", "numAgents": r.randint(1, 2), "markets": allm, "cashAmount": 100000, "assetVolume": 100})
+    for i in range(r.randint(1, 3)):
+        w.add_session(r.randint(3, 15), True, r.random() < 0.8, max_normal=r.choice([2, 4, 8]), max_hft=r.choice([1, 3]),
+                      rate=r.choice([1.0, 0.5]))
+    if with_index and r.random() < 0.3:
+        w.cfg["TH"] = {"class": "TradingHaltRule", "targetMarkets": [r.choice(plain)], "triggerChangeRate": 0.01,
+                       "haltingTimeLength": r.randint(2, 5), "enabled": True}
+        w.sessions[-1].setdefault("events", []).append("TH")
+    # scripted agents shape the state: trending / gapped prices, one-sided books
+    steps = w.total_steps()
+    for a in w.scripted:
+        turns = []
+        trend = r.choice([-1, 0, 1])
+        for _ in range(steps * (2 if a["hft"] else 1) + 2):
+            if r.random() < 0.3:
+                turns.append([])
+                continue
+            ops = []
+            for _ in range(r.randint(1, 2)):
+                mi = r.randrange(len(a["markets"]))
+                d = r.choice([0.0, 0.003, 0.01, 0.03]) * (trend if trend and r.random() < 0.7 else r.choice([-1, 1]))
+                u = r.random()
+                if u < 0.15:
+                    ops.append({"k": "market", "m": mi, "side": r.choice("bs"), "vol": r.randint(1, 3)})
+                elif u < 0.25:
+                    ops.append({"k": "cancel", "m": mi, "ref": "live", "nth": r.randrange(5)})
+                else:
+                    ops.append({"k": "limit", "m": mi, "side": r.choice("bs"), "px": {"mode": "rel", "f": 1.0 + d},
+                                "vol": r.randint(1, 3), **({"ttl": r.randint(1, 4)} if r.random() < 0.5 else {})})
+            turns.append(ops)
+        w.scripts[a["name"]] = turns
+    return w.scenario()
